@@ -235,6 +235,9 @@ def _affine_callback(affine, subpath_start, curr_pos, cmd, args, *_unused):
             ry = args[y_coord_idx + ARC_RADIUS_COORD_OFFSET]
             args[x_coord_idx + ARC_RADIUS_COORD_OFFSET] = rx * x_basis.norm()
             args[y_coord_idx + ARC_RADIUS_COORD_OFFSET] = ry * y_basis.norm()
+            # a mirror image is drawn with the opposite sweep
+            if affine.determinant() < 0:
+                args[4] = 1 - args[4]
     return ((cmd, args),)
 
 
